@@ -208,3 +208,91 @@ Proof. exact CommentsRefuse.claimer_claim_refused. Qed.
 Example C19_unclaim_refusal_happens :
   exists d items, fst (Comments.unclaim_inter d items (Some (99 :: nil)%Z)) = Err ValueError.
 Proof. exact CommentsRefuse.unclaim_refusal_happens. Qed.
+
+(* ---- "an arithmetic operand that cannot be consumed": NumExprSteps.v ----------------------------------------------
+   The in-place operators of NumberExpr (`+=`, `-=`, `*=`, `/=`), statement by statement over the token store of the
+   document: type check, deep copy of the right operand (raises on a NumberExpr whose tree was moved into another
+   expression: it has no tokens left), parentheses around self, coercion of the COPY, splice, new tree.  A refused call -
+   operand not a number (TypeError), NaN (decimal.InvalidOperation), spent expression (ValueError) - returns the store
+   and the left operand (first token, tree) it was given, for every store, every left operand that lives in its own
+   store (attached inside a document or free-standing), every operator. *)
+From AB Require NumExpr NumExprSteps NumExprStepsProofs.
+
+(* Full statement wanted: for every left operand.  Refuted by the model for a left operand that is itself spent
+   (C19_arith_spent_self_refuted); proved for every left operand that is in its own store - every number of a document -
+   and, for a spent one, for `+=`/`-=` and for `*=`/`/=` on a left operand that needs no parentheses. *)
+Theorem C19_arith_refused_atomic :
+  forall (k : NumExpr.binop) (s : list NumExpr.tok) (self : NumExprSteps.sref) (o : NumExprSteps.soperand)
+         (s' : list NumExpr.tok) (self' : NumExprSteps.sref) (e : exn),
+    NumExprSteps.s_owns self = true ->
+    NumExprSteps.s_idunder NumExprSteps.VCode k s self o = (s', self', Err e) -> s' = s /\ self' = self.
+Proof. exact NumExprStepsProofs.idunder_refused_atomic. Qed.
+
+Theorem C19_arith_spent_self_partial :
+  (forall s self other minus s' self' e,
+     NumExprSteps.s_iaddsub s self other minus = (s', self', Err e) -> s' = s /\ self' = self) /\
+  (forall s self other div s' self' e,
+     NumExprSteps.s_owns self = true \/ NumExpr.add_has_ops (NumExprSteps.s_tree self) = false ->
+     NumExprSteps.s_imuldiv NumExprSteps.VCode s self other div = (s', self', Err e) -> s' = s /\ self' = self).
+Proof. split; [exact NumExprStepsProofs.iaddsub_refused_atomic | exact NumExprStepsProofs.imuldiv_refused_atomic]. Qed.
+
+(* the code as it is: the left operand's tree `1 + 2` was moved into a number of the document `A 1 + 2 U`; `left *= 3` is
+   refused (ValueError) after _wrap_paren wrote `(` `)` into the store of the TREE - the receiving document, which now prints
+   `A (1 + 2) U` with parentheses no node owns.  Known finding C19:refusal-not-atomic:spent-left-operand. *)
+Theorem C19_arith_spent_self_refuted :
+  NumExprSteps.attached NumExprStepsProofs.wf_store NumExprStepsProofs.wf_spent_self /\
+  exists s',
+    NumExprSteps.s_idunder NumExprSteps.VCode NumExpr.OpMul NumExprStepsProofs.wf_store NumExprStepsProofs.wf_spent_self
+      (NumExprSteps.OScalar false [51]) = (s', NumExprSteps.SR 3 NumExprStepsProofs.wf_self_tree false, Err ValueError) /\
+    s' <> NumExprStepsProofs.wf_store /\
+    NumExpr.text s' = [65; 32; 40; 49; 32; 43; 32; 50; 41; 32; 85] /\
+    NumExpr.text NumExprStepsProofs.wf_store = [65; 32; 49; 32; 43; 32; 50; 32; 85].
+Proof. exact NumExprStepsProofs.spent_self_refuted. Qed.
+
+(* the refused calls are exactly: right operand not a number / NaN / spent, and every call on a spent left operand *)
+Theorem C19_arith_refused_iff :
+  forall (k : NumExpr.binop) (s : list NumExpr.tok) (self : NumExprSteps.sref) (o : NumExprSteps.soperand),
+    match NumExprStepsProofs.refusal_of o with
+    | Some e => NumExprSteps.s_idunder NumExprSteps.VCode k s self o = (s, self, Err e)
+    | None => if NumExprSteps.s_owns self
+              then exists s' self', NumExprSteps.s_idunder NumExprSteps.VCode k s self o = (s', self', Ok tt)
+              else exists s' self', NumExprSteps.s_idunder NumExprSteps.VCode k s self o = (s', self', Err ValueError)
+    end.
+Proof. exact NumExprStepsProofs.idunder_refused_iff. Qed.
+
+(* seeded regression (self is wrapped in parentheses before the operand is copied): `A 1 + 2 U` *= <spent expression> is
+   refused with the store printing `A (1 + 2) U`; the tree of self is untouched, so the parentheses belong to no node *)
+Theorem C19_arith_wrap_first_refuted :
+  NumExprSteps.attached NumExprStepsProofs.wf_store NumExprStepsProofs.wf_self /\
+  exists s',
+    NumExprSteps.s_imuldiv NumExprSteps.VWrapFirst NumExprStepsProofs.wf_store NumExprStepsProofs.wf_self NumExprSteps.Spent false
+      = (s', NumExprSteps.SR 3 NumExprStepsProofs.wf_self_tree true, Err ValueError) /\
+    s' <> NumExprStepsProofs.wf_store /\
+    NumExpr.text s' = [65; 32; 40; 49; 32; 43; 32; 50; 41; 32; 85] /\
+    NumExpr.text NumExprStepsProofs.wf_store = [65; 32; 49; 32; 43; 32; 50; 32; 85] /\
+    NumExprSteps.s_imuldiv NumExprSteps.VCode NumExprStepsProofs.wf_store NumExprStepsProofs.wf_self NumExprSteps.Spent false
+      = (NumExprStepsProofs.wf_store, NumExprStepsProofs.wf_self, Err ValueError).
+Proof. exact NumExprStepsProofs.wrap_first_refuted. Qed.
+
+(* accepted calls (either order of statements): store and tree are those of the pure model of C13 (NumExpr.inplace, which
+   `NumExpr.dunder _ InPlace` runs after the coercion of scalars) - the regression is invisible unless a call is refused *)
+Theorem C19_arith_accepted_is_pure :
+  forall (v : NumExprSteps.variant) (k : NumExpr.binop) (self x : NumExpr.nexpr),
+    exists r, NumExpr.inplace k self x = Ok r /\
+      NumExprSteps.s_inplace v k (NumExprSteps.store_of self) (NumExprSteps.sref_of self) (NumExprSteps.Live x)
+        = (NumExprSteps.store_of r, NumExprSteps.sref_of r, Ok tt).
+Proof. exact NumExprStepsProofs.inplace_live_is_pure. Qed.
+
+Example C19_arith_refusal_happens :
+  NumExprSteps.s_idunder NumExprSteps.VCode NumExpr.OpMul NumExprStepsProofs.wf_store NumExprStepsProofs.wf_self
+      (NumExprSteps.OExpr NumExprSteps.Spent) = (NumExprStepsProofs.wf_store, NumExprStepsProofs.wf_self, Err ValueError) /\
+  NumExprSteps.s_idunder NumExprSteps.VCode NumExpr.OpAdd NumExprStepsProofs.wf_store NumExprStepsProofs.wf_self
+      (NumExprSteps.OExpr NumExprSteps.Spent) = (NumExprStepsProofs.wf_store, NumExprStepsProofs.wf_self, Err ValueError) /\
+  NumExprSteps.s_idunder NumExprSteps.VCode NumExpr.OpDiv NumExprStepsProofs.wf_store NumExprStepsProofs.wf_self
+      NumExprSteps.ONaN = (NumExprStepsProofs.wf_store, NumExprStepsProofs.wf_self, Err NumExprSteps.InvalidOperation) /\
+  NumExprSteps.s_idunder NumExprSteps.VCode NumExpr.OpSub NumExprStepsProofs.wf_store NumExprStepsProofs.wf_self
+      NumExprSteps.ONotNumber = (NumExprStepsProofs.wf_store, NumExprStepsProofs.wf_self, Err TypeError) /\
+  (exists s' self', NumExprSteps.s_idunder NumExprSteps.VCode NumExpr.OpMul NumExprStepsProofs.wf_store NumExprStepsProofs.wf_self
+      (NumExprSteps.OScalar true [51]) = (s', self', Ok tt) /\
+     NumExpr.text s' = [65; 32; 40; 49; 32; 43; 32; 50; 41; 32; 42; 32; 45; 51; 32; 85]).
+Proof. exact NumExprStepsProofs.refusals_happen. Qed.
